@@ -619,9 +619,9 @@ package file
 //@   ensures wasDone ==> job.filename == filename && !job.isDone && jp.jobsDone.v >= 0
 //@   ensures wasDone && old(jp.jobsDone.v) > -2147483648 ==> jp.jobsDone.v == old(jp.jobsDone.v) - 1
 //@   ensures !wasDone ==> job.filename == old(job.filename) && !job.isDone && jp.jobsDone.v == old(jp.jobsDone.v)
-//@   setat "jp.jobsChan <- job" nsend := nsend + 1
 //@   callee chansend:jobsChan(v)
 //@     requires v == job && wasDone && !v.isDone && !held(job.mu)
+//@     set nsend := nsend + 1
 //@   callee continueJob(j)
 //@     requires j == job
 //@     requires wasDone
@@ -677,9 +677,9 @@ package file
 //@   modifies jp.jobsDone.v
 //@   ensures !held(job.mu) && !jl && ndel == 1 && wasDone
 //@   ensures old(jp.jobsDone.v) > -2147483648 ==> jp.jobsDone.v == old(jp.jobsDone.v) - 1
-//@   setat "delete(jp.jobs, sourceID)" ndel := ndel + 1
-//@   assert at "delete(jp.jobs, sourceID)" jl && ndel == 1 && wasDone
-//@   assert at "delete(jp.jobs, sourceID)" sourceID == job.sourceID
+//@   callee mapdelete:jobs(k)
+//@     requires jl && ndel == 0 && wasDone && k == job.sourceID
+//@     set ndel := ndel + 1
 //@   callee RWMutex.Lock()
 //@     requires !jl
 //@     pure
